@@ -274,3 +274,8 @@ mod local_test {
         });
     }
 }
+
+#[cfg(kani)]
+mod verif_kani {
+    include!(concat!(env!("IPA_VERIF_DIR"), "/kani/seq_join.rs"));
+}
